@@ -27,7 +27,10 @@ use crate::stores::{self, GsStore, KpStore, PartyStores, PskStore, StoreTable};
 
 pub const CUSTOM_EXT: u16 = 0xF042;
 pub const CUSTOM_PROP: u16 = 0xF043;
-pub const CLOCK0: u64 = 1_700_000_000;
+/// The world clock: real time at process start, passed explicitly to every API that accepts an
+/// `MlsTime` (the few internal call sites of mls-rs that read the system clock themselves then
+/// agree with it; key package lifetimes span a year, so runs of hours are unaffected).
+pub static CLOCK0: std::sync::LazyLock<u64> = std::sync::LazyLock::new(|| MlsTime::now().seconds_since_epoch());
 
 // ------------------------------------------------------------------------------------------
 // identity provider with harness-decided verdicts
@@ -311,7 +314,7 @@ impl World {
             ledger: BTreeMap::new(),
             ghosts: Vec::new(),
             trail: Vec::new(),
-            clock: CLOCK0,
+            clock: *CLOCK0,
             group_id: b"verif-group".to_vec(),
         }
     }
